@@ -306,3 +306,9 @@ def InQ(q, n, c):
 def QMask(q, nq, N):
     # utils.mask(qubits, N): boolean vector over N qubits, true at the listed qubits
     return [InQ(q, nq, c) for c in range(N)]
+
+
+@spec('int', 'int', ret='int1')
+def Unit(i, n):
+    # the unit string e_i of length n  (X_0, Z_0, X_1, Z_1, ... in the library's interleaved convention)
+    return [1 if c == i else 0 for c in range(n)]
